@@ -118,6 +118,22 @@ IdlDlmComplaints ==
                IF d[3] = ToString(n) /\ d[4] = ToString(n) THEN {}
                ELSE {[binding |-> "idl", name |-> c.name, declared |-> d, c |-> [ret |-> c.ret, args |-> c.args], why |-> "DLM declaration (min, max arguments) does not fit the C prototype"]}
         : i \in 1..Len(Bind.idl.dlm) }
+\* the C glue of the IDL binding instantiates one macro per routine; the macro name spells the argument types (I int, F double, S string)
+IdlLetter(ct) == CASE DropConst(ct) = "int" -> "I" [] DropConst(ct) = "double" -> "F" [] DropConst(ct) = "char*" -> "S" [] OTHER -> "?"
+RECURSIVE Letters(_, _)
+Letters(args, k) == IF k > Len(args) THEN "" ELSE (IF DropConst(args[k]) = "xrl_error**" THEN "" ELSE IdlLetter(args[k])) \o Letters(args, k + 1)
+IdlGlueComplaints ==
+  UNION { LET g == Bind.idl.glue[i] IN
+          IF g[1] \notin DOMAIN CByName THEN {}
+          ELSE LET c == CByName[g[1]] IN
+               IF Letters(c.args, 1) = g[3] /\ ToString(Len(g[3])) = g[2] THEN {}
+               ELSE {[binding |-> "idl", name |-> g[1], declared |-> g, c |-> [ret |-> c.ret, args |-> c.args], why |-> "argument types of the IDL glue macro differ from the C prototype"]}
+        : i \in 1..Len(Bind.idl.glue) }
+\* SWIG attaches an OUTPUT typemap by parameter type AND name: a typemap whose name matches no parameter of any C prototype is silently dead
+SwigApplyComplaints ==
+  { [binding |-> "swig", typemap |-> Bind.swig_apply[i], why |-> "%apply names a parameter that no C prototype has (the typemap does not attach)"] :
+    i \in { i \in 1..Len(Bind.swig_apply) : ~\E p \in 1..Len(CProtos) : \E k \in 1..Len(CProtos[p].args) :
+                 DropConst(CProtos[p].args[k]) = DropConst(Bind.swig_apply[i][1]) /\ CProtos[p].argnames[k] = Bind.swig_apply[i][2] } }
 \* ---- enumerations: a C enumerator without "= value" is its predecessor plus one (the first is 0); Fortran ENUM, BIND(C) and Pascal enumerated
 \* types number the same way.  The bindings must declare the same names with the same numbers, in any order.
 IsDigitStr(t) == t # "" /\ \A i \in 1..Len(t) : SubSeq(t, i, i) \in {"0","1","2","3","4","5","6","7","8","9"}
@@ -140,5 +156,5 @@ ExportComplaints == { [name |-> n, why |-> "declared in a public header but not 
 HeaderVersion == ToString(MiscMacro.XRAYLIB_MAJOR) \o "." \o ToString(MiscMacro.XRAYLIB_MINOR) \o "." \o ToString(MiscMacro.XRAYLIB_MICRO)
 VersionComplaints == { [file |-> Versions[i][1], version |-> Versions[i][2], header |-> HeaderVersion, why |-> "version differs from xraylib.h"] : i \in { i \in 1..Len(Versions) : Versions[i][2] # HeaderVersion } }
 AllComplaints == UNION { ConstComplaints(b) : b \in {"fortran", "pascal", "idl", "java"} } \cup UNION { Missing(b) : b \in {"fortran", "pascal", "idl", "java", "cython"} }
-                 \cup ByInclusion \cup CythonProtoComplaints \cup FortranProtoComplaints \cup PascalProtoComplaints \cup IdlDlmComplaints \cup EnumComplaints \cup LibtoolComplaints \cup ExportComplaints \cup VersionComplaints
+                 \cup ByInclusion \cup CythonProtoComplaints \cup FortranProtoComplaints \cup PascalProtoComplaints \cup IdlDlmComplaints \cup IdlGlueComplaints \cup SwigApplyComplaints \cup EnumComplaints \cup LibtoolComplaints \cup ExportComplaints \cup VersionComplaints
 ==============================================================================
